@@ -54,6 +54,12 @@ operators, so the contract has to survive what those do before the built-in divi
   `l.tmod r`; both lie in the range their types declare and `q·r + m = l`.  (An unsigned dividend with a negative signed
   divisor, and an unsigned operand whose top storage bit is set, are instances: the elastic policy makes the operand
   type signed and wide enough for both operands.)
+* `elastic_builtin_div_mod_values` — an `elastic_integer` representation against an operand with a **built-in**
+  representation (`scaled_integer<T, power<eT>>` or a plain `T`), either operand order (`ScaledWrapped.binOpB`): the
+  built-in operand is lifted by `from_value<elastic_integer<_, N>, T>` to `digits T` digits with the signedness of `T`
+  (`ofBuiltin`, in range by `ofBuiltin_inRange` unless it is the lowest value of a signed `T`), after which the statement
+  is `elastic_div_mod_values`.  An unsigned narrowest type against a negative `int` is an instance (examples).
+  The identity and `cnl::quotient` for this operand kind (`identB`, `quotientB`) are covered by correspondence only.
 * `checked_div_mod_values` — representation `overflow_integer<T, tag>` for every tag (native, saturated, throwing,
   trapping, undefined), every pair of built-in representations (the same signedness under a checked tag) and every
   exponent/radix: inside `DivGuard` the tagged `/` and `%` return `l.tdiv r` at `eL - eR` and `l.tmod r` at `eL` in
@@ -282,5 +288,43 @@ example : ElasticScaled.binOp .div ⟨12, u32, -4, 10⟩ ⟨10, i32, -2, -3⟩ =
 example : ElasticScaled.binOp .mod ⟨32, u32, -16, 2147483648⟩ ⟨8, i32, -2, 3⟩ = .ok ⟨8, i32, -16, 2⟩ := by decide
 example : ElasticScaled.binOp .div ⟨8, i32, -2, 100⟩ ⟨32, u32, -16, 4294967293⟩ = .ok ⟨8, i32, 14, 0⟩ := by decide
 example : (⟨32, u32, -16, 2147483648⟩ : ESNum).InRange ∧ (⟨8, i32, -2, -3⟩ : ESNum).InRange := by decide
+
+/-- a value of a built-in `T` other than the lowest of a signed `T`, lifted by `from_value` next to an elastic operand
+with narrowest type `n`, lies in the declared range of the lifted type (signedness of `T`, `digits T` digits) -/
+theorem ofBuiltin_inRange (n T : IntTy) (e b : Int) (hb : T.InRange b) (hl : T.signed = true → b ≠ T.lowest) :
+    (ofBuiltin n T e b).InRange := by
+  cases T with
+  | mk bits sg =>
+    cases sg <;>
+      simp only [IntTy.InRange, IntTy.lowest, IntTy.max, ESNum.InRange, ENum.InRange, ESNum.toE, ofBuiltin, IntTy.digits] at * <;>
+      simp at * <;> omega
+
+/-- an `elastic_integer` representation against an operand with a **built-in** representation `T` (a
+`scaled_integer<T, power<eT>>`, or a plain `T` with `eT = 0`), either operand order, all digit counts, widths and the four
+signedness mixes (an unsigned narrowest type against a negative `int` is an instance): the truncated quotient at the
+difference of the exponents, the remainder at the dividend's exponent, within the declared range of the result types -/
+theorem elastic_builtin_div_mod_values (left : Bool) (x : ESNum) (T : IntTy) (eT b : Int) (hx : x.InRange)
+    (hb : T.InRange b) (hl : T.signed = true → b ≠ T.lowest)
+    (h0 : (if left then x.value else b) ≠ 0)
+    (hd : ∀ m, binOpB .div left x T eT b ≠ .ill m) (hm : ∀ m, binOpB .mod left x T eT b ≠ .ill m) :
+    ∃ q rm, binOpB .div left x T eT b = .ok q ∧ binOpB .mod left x T eT b = .ok rm ∧
+      q.exp = (if left then eT - x.exp else x.exp - eT) ∧ rm.exp = (if left then eT else x.exp) ∧
+      q.value = (if left then b.tdiv x.value else x.value.tdiv b) ∧
+      rm.value = (if left then b.tmod x.value else x.value.tmod b) ∧ q.InRange ∧ rm.InRange := by
+  have hy := ofBuiltin_inRange x.narrowest T eT b hb hl
+  cases left
+  · simp only [binOpB, Bool.false_eq_true, if_false] at *
+    obtain ⟨q, rm, h1, h2, h3, h4, h5, h6, -, -, -, h7, h8⟩ := elastic_div_mod_values x _ hx hy h0 hd hm
+    exact ⟨q, rm, h1, h2, h3, h4, h5, h6, h7, h8⟩
+  · simp only [binOpB, if_true] at *
+    obtain ⟨q, rm, h1, h2, h3, h4, h5, h6, -, -, -, h7, h8⟩ := elastic_div_mod_values _ x hy hx h0 hd hm
+    exact ⟨q, rm, h1, h2, h3, h4, h5, h6, h7, h8⟩
+
+-- 3.5 / -0.75 = -4.5 and 3.5 % -0.75 = 0.125: 8 unsigned digits at 2^-4 against an `int` at 2^-2, and the other order
+example : binOpB .div false ⟨8, u32, -4, 56⟩ i32 (-2) (-3) = .ok ⟨8, i32, -2, -18⟩ := by decide
+example : binOpB .mod false ⟨8, u32, -4, 56⟩ i32 (-2) (-3) = .ok ⟨8, i32, -4, 2⟩ := by decide
+example : binOpB .div true ⟨8, u8, -4, 5⟩ i32 0 (-17) = .ok ⟨31, i8, 4, -3⟩ := by decide
+example : binOpB .mod true ⟨8, u8, -4, 5⟩ i32 0 (-17) = .ok ⟨8, i8, 0, -2⟩ := by decide
+example : i32.InRange (-3) ∧ (-3 : Int) ≠ i32.lowest ∧ (⟨8, u32, -4, 56⟩ : ESNum).InRange := by decide
 
 end Cnl.C02
